@@ -760,3 +760,687 @@ func c19Expected(h c19H, dimX, dimY int, img *c19Img) *c19Expect {
 	}
 	return e
 }
+
+// c19GridSrc returns the grid-space quadrilateral (the "To" points of SampleGrid).
+func c19GridSrc(rng *fw.Rand, dimX, dimY int) ([4][2]float64, string) {
+	fx, fy := float64(dimX), float64(dimY)
+	o := []float64{0, 0.5, 3.5}[rng.Intn(3)]
+	if fx-2*o < 1 || fy-2*o < 1 {
+		o = 0
+	}
+	q := [4][2]float64{{o, o}, {fx - o, o}, {fx - o, fy - o}, {o, fy - o}}
+	kind := fmt.Sprintf("inset%v", o)
+	if dimX >= 14 && dimY >= 14 && rng.Intn(4) == 0 { // QR style: third point is an alignment pattern further in
+		q[2] = [2]float64{fx - 6.5, fy - 6.5}
+		kind = "qr-alignment"
+	}
+	return q, kind
+}
+
+// side placement of the hull of the mapped cell centres relative to an image edge
+var c19SidePlacements = []string{"inside", "band", "dontcare", "far"}
+
+func c19LowTarget(rng *fw.Rand, place string, n int) float64 {
+	switch place {
+	case "band":
+		return -0.05 - 0.9*rng.Float()
+	case "dontcare":
+		return -1.05 - 0.9*rng.Float()
+	case "far":
+		return -2.05 - 3*rng.Float()
+	}
+	return 0.05 + rng.Float()*float64(n)/4
+}
+
+func c19HighTarget(rng *fw.Rand, place string, n int) float64 {
+	switch place {
+	case "band":
+		return float64(n) + 0.05 + 0.9*rng.Float()
+	case "dontcare": // no don't-care band on the high side: [n,n+1) then far
+		return float64(n) + 0.05 + 0.9*rng.Float()
+	case "far":
+		return float64(n) + 1.05 + 3*rng.Float()
+	}
+	return float64(n) - 0.05 - rng.Float()*float64(n)/4
+}
+
+type c19Setup struct {
+	dimX, dimY int
+	src, dst   [4][2]float64
+	family     string
+	srcKind    string
+	places     [4]string // left, right, top, bottom
+	h          c19H
+}
+
+// c19MakeSetup builds a grid->image quadrilateral pair of the family whose
+// mapped cell-centre hull is placed against the image edges as `places` says.
+// uniform: keep the aspect (pure similarity fit) – only for all-inside placement.
+func c19MakeSetup(r *fw.Rec, dimX, dimY int, img *c19Img, family string, places [4]string, uniform bool) (*c19Setup, bool) {
+	rng := r.Rng
+	for try := 0; try < 60; try++ {
+		src, srcKind := c19GridSrc(rng, dimX, dimY)
+		fam := family
+		if try >= 40 {
+			fam = "sheared" // affine always has a constant denominator
+		}
+		dst := c19GenQuad(rng, fam, 0, 0, 100)
+		if fam != "perspective" && srcKind == "qr-alignment" {
+			// keep the pair affine-related for the non-perspective families: use the plain rectangle
+			fx, fy := float64(dimX), float64(dimY)
+			src = [4][2]float64{{0, 0}, {fx, 0}, {fx, fy}, {0, fy}}
+			srcKind = "inset0"
+		}
+		h, ok := c19Solve(src, dst)
+		if !ok {
+			continue
+		}
+		// denominator: constant sign and bounded ratio over the whole grid rectangle
+		gc := [4][2]float64{{0, 0}, {float64(dimX), 0}, {float64(dimX), float64(dimY)}, {0, float64(dimY)}}
+		minW, maxW := math.Inf(1), 0.0
+		sgnOK := true
+		for _, p := range gc {
+			w := h.relW(p[0], p[1], src)
+			if w <= 0 {
+				sgnOK = false
+			}
+			minW, maxW = math.Min(minW, w), math.Max(maxW, w)
+		}
+		if !sgnOK || minW < 0.15*maxW {
+			r.Tally("setup_rejected_vanishing_line_near_grid")
+			continue
+		}
+		// hull of mapped cell centres = image of [0.5,dimX-0.5]x[0.5,dimY-0.5]
+		cc := [4][2]float64{{0.5, 0.5}, {float64(dimX) - 0.5, 0.5}, {float64(dimX) - 0.5, float64(dimY) - 0.5}, {0.5, float64(dimY) - 0.5}}
+		bx0, bx1, by0, by1 := math.Inf(1), math.Inf(-1), math.Inf(1), math.Inf(-1)
+		for _, p := range cc {
+			u, v, ok := h.applyF(p[0], p[1])
+			if !ok {
+				sgnOK = false
+				break
+			}
+			fu, _ := u.Float64()
+			fv, _ := v.Float64()
+			bx0, bx1, by0, by1 = math.Min(bx0, fu), math.Max(bx1, fu), math.Min(by0, fv), math.Max(by1, fv)
+		}
+		if !sgnOK {
+			continue
+		}
+		tx0, tx1 := c19LowTarget(rng, places[0], img.w), c19HighTarget(rng, places[1], img.w)
+		ty0, ty1 := c19LowTarget(rng, places[2], img.h), c19HighTarget(rng, places[3], img.h)
+		if tx1 <= tx0 || ty1 <= ty0 {
+			continue
+		}
+		var sx, sy, ox, oy float64
+		if bx1-bx0 < 1e-9 {
+			sx = 1
+			if places[0] == "inside" && places[1] != "inside" {
+				ox = tx1 - bx0
+			} else {
+				ox = tx0 - bx0
+			}
+		} else {
+			sx = (tx1 - tx0) / (bx1 - bx0)
+			ox = tx0 - sx*bx0
+		}
+		if by1-by0 < 1e-9 {
+			sy = 1
+			if places[2] == "inside" && places[3] != "inside" {
+				oy = ty1 - by0
+			} else {
+				oy = ty0 - by0
+			}
+		} else {
+			sy = (ty1 - ty0) / (by1 - by0)
+			oy = ty0 - sy*by0
+		}
+		if uniform && bx1-bx0 >= 1e-9 && by1-by0 >= 1e-9 {
+			s := math.Min(sx, sy)
+			// centre the smaller extent in its target interval
+			ox = (tx0+tx1)/2 - s*(bx0+bx1)/2
+			oy = (ty0+ty1)/2 - s*(by0+by1)/2
+			sx, sy = s, s
+		}
+		for i := range dst {
+			dst[i][0] = sx*dst[i][0] + ox
+			dst[i][1] = sy*dst[i][1] + oy
+		}
+		if !c19WellShaped(dst, 0.02) { // strong anisotropic fit can flatten the quadrilateral
+			r.Tally("setup_rejected_flattened_by_fit")
+			continue
+		}
+		h2, ok := c19Solve(src, dst)
+		if !ok {
+			continue
+		}
+		return &c19Setup{dimX: dimX, dimY: dimY, src: src, dst: dst, family: fam, srcKind: srcKind, places: places, h: h2}, true
+	}
+	return nil, false
+}
+
+func (s *c19Setup) data(img *c19Img) map[string]interface{} {
+	rows := make([]string, 0, img.h)
+	if img.w*img.h <= 4096 {
+		for y := 0; y < img.h; y++ {
+			rows = append(rows, boolsToStr(img.px[y*img.w:(y+1)*img.w]))
+		}
+	}
+	return map[string]interface{}{"dimX": s.dimX, "dimY": s.dimY, "to_points(grid)": c19Flat(s.src), "from_points(image)": c19Flat(s.dst),
+		"image_w": img.w, "image_h": img.h, "image_kind": img.kind, "image_rows_if_small": rows, "family": s.family, "placement_left_right_top_bottom": s.places}
+}
+
+// c19SampleAndCheck runs SampleGrid and SampleGridWithTransform on the setup and
+// compares them with the exact expectation.
+func c19SampleAndCheck(r *fw.Rec, s *c19Setup, img *c19Img, class string) bool {
+	exp := c19Expected(s.h, s.dimX, s.dimY, img)
+	sampler := common.GridSampler_GetInstance()
+	for _, api := range []string{"SampleGrid", "SampleGridWithTransform"} {
+		before := verifhook.OOBReads()
+		var bits *gozxing.BitMatrix
+		var err error
+		if api == "SampleGrid" {
+			bits, err = sampler.SampleGrid(img.bm, s.dimX, s.dimY,
+				s.src[0][0], s.src[0][1], s.src[1][0], s.src[1][1], s.src[2][0], s.src[2][1], s.src[3][0], s.src[3][1],
+				s.dst[0][0], s.dst[0][1], s.dst[1][0], s.dst[1][1], s.dst[2][0], s.dst[2][1], s.dst[3][0], s.dst[3][1])
+		} else {
+			bits, err = sampler.SampleGridWithTransform(img.bm, s.dimX, s.dimY, c19Q2Q(s.src, s.dst))
+		}
+		oob := verifhook.OOBReads() - before
+		r.Evals(1)
+		if oob != 0 {
+			d := s.data(img)
+			d["oob_reads"] = oob
+			out := "a matrix"
+			if err != nil {
+				out = fmt.Sprintf("error %v", err)
+			}
+			r.Violation("model-mismatch", api+":read-outside-image", fmt.Sprintf("%s %dx%d on a %dx%d image read %d pixel(s) outside the image (returned %s)", api, s.dimX, s.dimY, img.w, img.h, oob, out), d)
+			return false
+		}
+		if err != nil && !c19NotFound(err) {
+			r.Violation("model-mismatch", api+":error-kind", fmt.Sprintf("%s returned %T (%v), not a NotFoundException", api, err, err), s.data(img))
+			return false
+		}
+		if err == nil && (bits == nil || bits.GetWidth() != s.dimX || bits.GetHeight() != s.dimY) {
+			r.Violation("model-mismatch", api+":result-dimensions", fmt.Sprintf("%s %dx%d returned a matrix of other dimensions", api, s.dimX, s.dimY), s.data(img))
+			return false
+		}
+		switch exp.cls {
+		case c19Any:
+			r.Tally("calls_outcome_not_demanded_limit_borderline")
+			continue
+		case c19Far:
+			if err == nil {
+				d := s.data(img)
+				d["far_cell"] = exp.farCell
+				r.Violation("model-mismatch", api+":no-error-for-point-beyond-band", fmt.Sprintf("%s %dx%d: cell %v maps more than one pixel outside the %dx%d image, but a matrix was returned", api, s.dimX, s.dimY, exp.farCell, img.w, img.h), d)
+				return false
+			}
+			r.Tally("calls_beyond_band_notfound")
+			continue
+		case c19DontCare:
+			if err != nil {
+				r.Tally("calls_dont_care_band_notfound")
+				continue
+			}
+			r.Tally("calls_dont_care_band_matrix")
+		default:
+			if err != nil {
+				d := s.data(img)
+				d["rows_exercising"] = exp.rowTally
+				sig := api + ":not-found-though-all-points-within-one-pixel"
+				if exp.inBand == 0 {
+					sig = api + ":not-found-though-all-points-inside"
+				} else {
+					for _, k := range []string{"firstpass_bottom", "firstpass_top", "firstpass_left", "firstpass_right", "lastpass_bottom", "lastpass_top", "lastpass_left", "lastpass_right"} {
+						if exp.rowTally[k] > 0 {
+							sig += ":" + k
+							break
+						}
+					}
+				}
+				r.Violation("model-mismatch", sig, fmt.Sprintf("%s %dx%d on a %dx%d image: every cell centre maps inside the image or at most one pixel outside (%d cells in a band), but the call failed: %v", api, s.dimX, s.dimY, img.w, img.h, exp.inBand, err), d)
+				return false
+			}
+		}
+		// compare the cells
+		for y := 0; y < s.dimY; y++ {
+			for x := 0; x < s.dimX; x++ {
+				want := exp.cells[y*s.dimX+x]
+				if want < 0 {
+					continue
+				}
+				if bits.Get(x, y) != (want == 1) {
+					d := s.data(img)
+					d["cell"] = []int{x, y}
+					u, v, _ := s.h.applyF(float64(x)+0.5, float64(y)+0.5)
+					fu, _ := u.Float64()
+					fv, _ := v.Float64()
+					d["exact_point"] = []float64{fu, fv}
+					where := "inside"
+					if fu < 0 || fv < 0 || fu >= float64(img.w) || fv >= float64(img.h) {
+						where = "nudged"
+					}
+					r.Violation("model-mismatch", api+":wrong-bit:"+where, fmt.Sprintf("%s %dx%d: cell (%d,%d) centre maps exactly to (%.9g,%.9g); bit is %v, the pixel there (after pulling onto the edge) is %v", api, s.dimX, s.dimY, x, y, fu, fv, bits.Get(x, y), want == 1), d)
+					return false
+				}
+			}
+		}
+		r.Tally("calls_matrix_compared")
+		r.Tally("calls_matrix_compared_" + s.family)
+		r.Tally("calls_matrix_compared_image_" + img.kind)
+		if api == "SampleGrid" {
+			r.TallyN("cells_asserted", int64(exp.asserted))
+			r.TallyN("cells_skipped_borderline", int64(exp.skipped))
+			r.TallyN("cells_asserted_in_band", int64(exp.inBand))
+			for k, v := range exp.rowTally {
+				r.TallyN("samplegrid_rows_"+k, int64(v))
+			}
+		}
+	}
+	if exp.twisted {
+		r.Tally("calls_twisted_unexpected")
+	}
+	r.Tally("sampling_setups_" + class)
+	r.NontrivialH(hashFloats(c19Flat(s.src), c19Flat(s.dst)) ^ uint64(s.dimX)<<40 ^ uint64(s.dimY)<<20 ^ uint64(img.w)<<10 ^ uint64(img.h))
+	return true
+}
+
+var c19ImgKinds = []string{"noise", "black", "blocks", "frame", "noise"}
+
+func c19PickDims(rng *fw.Rand, idx int) (int, int) {
+	special := []int{1, 2, 3, 21, 25, 57, 104, 144, 176, 177}
+	pick := func() int {
+		switch rng.Intn(4) {
+		case 0:
+			return special[rng.Intn(len(special))]
+		case 1:
+			return 1 + rng.Intn(30)
+		default:
+			return 1 + rng.Intn(177)
+		}
+	}
+	if idx < 177 { // every dimension at least once, square
+		return idx + 1, idx + 1
+	}
+	dx := pick()
+	dy := dx
+	if rng.Intn(3) > 0 {
+		dy = pick()
+	}
+	return dx, dy
+}
+
+func c19SamplingCase(r *fw.Rec, idx int, overhang bool) {
+	rng := r.Rng
+	dimX, dimY := c19PickDims(rng, idx)
+	w, h := 8+rng.Intn(300), 8+rng.Intn(300)
+	if rng.Intn(6) == 0 {
+		w, h = 2+rng.Intn(12), 2+rng.Intn(12)
+	}
+	img := c19NewImg(rng, w, h, c19ImgKinds[rng.Intn(len(c19ImgKinds))])
+	family := c19Families[idx%4]
+	places := [4]string{"inside", "inside", "inside", "inside"}
+	class := "inside"
+	if overhang {
+		class = "overhang"
+		for i := range places {
+			switch k := rng.Intn(20); {
+			case k < 9:
+			case k < 16:
+				places[i] = "band"
+			case k < 18:
+				places[i] = "dontcare"
+			default:
+				places[i] = "far"
+			}
+		}
+	}
+	s, ok := c19MakeSetup(r, dimX, dimY, img, family, places, !overhang)
+	if !ok {
+		r.Tally("setup_failed")
+		return
+	}
+	r.Tally(fmt.Sprintf("grid_dims_%s", c19DimBucket(dimX, dimY)))
+	r.Max("max_grid_dimension", int64(dimX))
+	r.Max("max_grid_dimension", int64(dimY))
+	if !c19SampleAndCheck(r, s, img, class) {
+		return
+	}
+	if idx == 20 {
+		r.Sample(map[string]interface{}{"kind": "sampling/" + class, "dimX": dimX, "dimY": dimY, "image": fmt.Sprintf("%dx%d %s", w, h, img.kind), "family": s.family, "to": c19Flat(s.src), "from": c19Flat(s.dst), "placement": places})
+	}
+}
+
+func c19DimBucket(dx, dy int) string {
+	b := func(d int) string {
+		switch {
+		case d == 1:
+			return "1"
+		case d == 2:
+			return "2"
+		case d == 177:
+			return "177"
+		case d <= 21:
+			return "3-21"
+		default:
+			return "22-176"
+		}
+	}
+	if dx == dy {
+		return "square_" + b(dx)
+	}
+	return "nonsquare"
+}
+
+// ---------------------------------------------------------------------------
+// nudge bands: targeted SampleGrid set-ups and direct calls
+
+var c19Bands = []string{"left", "right", "top", "bottom"}
+var c19Passes = []string{"firstpass", "lastpass"}
+
+// c19TargetedSetup builds an affine grid->image map whose edge row starts
+// (firstpass) or ends (lastpass) inside the named one-pixel band while the
+// other end of the row is plainly inside the image.
+func c19TargetedSetup(rng *fw.Rand, dimX, dimY int, img *c19Img, band, pass string) (*c19Setup, bool) {
+	w, h := float64(img.w), float64(img.h)
+	in := func(n float64) float64 { return 0.3 + rng.Float()*(n-0.6) }
+	depth := 0.1 + 0.8*rng.Float()
+	var bandEnd, otherEnd [2]float64 // centres of the band-side / inside-side end cells of the edge row
+	var V [2]float64                 // centre displacement from one grid row to the next
+	edgeRow := 0
+	rows := float64(dimY - 1)
+	switch band {
+	case "bottom":
+		edgeRow = dimY - 1
+		oy := h - 0.3 - rng.Float()*h/3
+		bandEnd, otherEnd = [2]float64{in(w), h + depth}, [2]float64{in(w), oy}
+		if dimY > 1 {
+			V = [2]float64{0, (oy - 0.3) / rows * (0.3 + 0.7*rng.Float())}
+		}
+	case "top":
+		oy := 0.3 + rng.Float()*h/3
+		bandEnd, otherEnd = [2]float64{in(w), -depth}, [2]float64{in(w), oy}
+		if dimY > 1 {
+			V = [2]float64{0, (h - 0.3 - oy) / rows * (0.3 + 0.7*rng.Float())}
+		}
+	case "left", "right":
+		ya, yb := 0.3+rng.Float()*h/3, 0.3+rng.Float()*h/3
+		if rng.Bool() {
+			yb = ya // horizontal rows: pure axis-aligned scaling + translation
+		}
+		bx := -depth
+		if band == "right" {
+			bx = w + depth
+		}
+		bandEnd, otherEnd = [2]float64{bx, ya}, [2]float64{in(w), yb}
+		if dimY > 1 {
+			V = [2]float64{0, (h - 0.3 - math.Max(ya, yb)) / rows * (0.3 + 0.7*rng.Float())}
+		}
+	}
+	first, last := bandEnd, otherEnd
+	if pass == "lastpass" {
+		first, last = otherEnd, bandEnd
+	}
+	U := [2]float64{(last[0] - first[0]) / float64(dimX-1), (last[1] - first[1]) / float64(dimX-1)}
+	at := func(gx, gy float64) [2]float64 {
+		a, b := gx-0.5, gy-(float64(edgeRow)+0.5)
+		return [2]float64{first[0] + a*U[0] + b*V[0], first[1] + a*U[1] + b*V[1]}
+	}
+	if dimY == 1 { // any row direction that keeps the quadrilateral non-degenerate
+		V = [2]float64{-U[1], U[0]}
+		if V[0] == 0 && V[1] == 0 {
+			return nil, false
+		}
+	}
+	fx, fy := float64(dimX), float64(dimY)
+	src := [4][2]float64{{0, 0}, {fx, 0}, {fx, fy}, {0, fy}}
+	var dst [4][2]float64
+	for i, p := range src {
+		dst[i] = at(p[0], p[1])
+	}
+	hm, ok := c19Solve(src, dst)
+	if !ok {
+		return nil, false
+	}
+	return &c19Setup{dimX: dimX, dimY: dimY, src: src, dst: dst, family: "sheared", srcKind: "inset0", places: [4]string{"targeted", band, pass, ""}, h: hm}, true
+}
+
+func c19TargetedCase(r *fw.Rec, idx int) {
+	rng := r.Rng
+	band, pass := c19Bands[idx%4], c19Passes[(idx/4)%2]
+	for rep := 0; rep < 4; rep++ {
+		dimX := 2 + rng.Intn(40)
+		dimY := 1 + rng.Intn(40)
+		if rng.Intn(8) == 0 {
+			dimX = []int{2, 21, 177}[rng.Intn(3)]
+		}
+		w, h := 6+rng.Intn(200), 6+rng.Intn(200)
+		img := c19NewImg(rng, w, h, []string{"noise", "frame", "black"}[rng.Intn(3)])
+		s, ok := c19TargetedSetup(rng, dimX, dimY, img, band, pass)
+		if !ok {
+			r.Tally("targeted_setup_failed")
+			continue
+		}
+		exp := c19Expected(s.h, dimX, dimY, img)
+		if exp.cls != c19Inside || exp.rowTally[pass+"_"+band] == 0 {
+			r.Tally("targeted_setup_missed_band") // rounding of the construction; not asserted as targeted
+		} else {
+			r.Tally("samplegrid_targeted_" + pass + "_" + band)
+		}
+		if !c19SampleAndCheck(r, s, img, "targeted") {
+			return
+		}
+		if idx < 8 && rep == 0 {
+			r.Sample(map[string]interface{}{"kind": "sampling/targeted nudge", "band": band, "pass": pass, "dimX": dimX, "dimY": dimY, "image": fmt.Sprintf("%dx%d %s", w, h, img.kind), "to": c19Flat(s.src), "from": c19Flat(s.dst)})
+		}
+	}
+}
+
+// c19DirectCase calls GridSampler_checkAndNudgePoints on hand-built point lists.
+func c19DirectCase(r *fw.Rec, idx int) {
+	rng := r.Rng
+	for rep := 0; rep < 200; rep++ {
+		w, h := 1+rng.Intn(64), 1+rng.Intn(64)
+		if rng.Intn(4) == 0 {
+			w, h = 1+rng.Intn(600), 1+rng.Intn(600)
+		}
+		bm, err := gozxing.NewBitMatrix(w, h)
+		if err != nil {
+			panic(err)
+		}
+		fw_, fh := float64(w), float64(h)
+		n := 1 + rng.Intn(12)
+		pts := make([]float64, 2*n)
+		for i := 0; i < n; i++ {
+			pts[2*i] = rng.Float() * fw_
+			pts[2*i+1] = rng.Float() * fh
+			if pts[2*i] >= fw_ {
+				pts[2*i] = 0
+			}
+			if pts[2*i+1] >= fh {
+				pts[2*i+1] = 0
+			}
+		}
+		band := c19Bands[rng.Intn(4)]
+		pass := c19Passes[rng.Intn(2)]
+		k := 1 + rng.Intn(3)
+		if k > n {
+			k = n
+		}
+		mode := rng.Intn(10) // 0..5 band, 6 corner band, 7 far, 8 dont-care, 9 nothing to nudge
+		frac := rng.Float()
+		if rng.Intn(5) == 0 {
+			frac = 0 // exactly on the band's inner limit: -1.0 / w / h
+		}
+		bandVal := func(b string) float64 {
+			switch b {
+			case "left", "top":
+				return -1 + frac*0.999 // [-1, 0)
+			case "right":
+				if frac == 0 {
+					return fw_
+				}
+				return fw_ + frac*0.999
+			default:
+				if frac == 0 {
+					return fh
+				}
+				return fh + frac*0.999
+			}
+		}
+		coord := func(b string) int {
+			if b == "left" || b == "right" {
+				return 0
+			}
+			return 1
+		}
+		idxOf := func(j int) int { // j-th point counted from the pass's end
+			if pass == "firstpass" {
+				return j
+			}
+			return n - 1 - j
+		}
+		want := make([]int, 2*n) // demanded floor of every coordinate after the call
+		for i, v := range pts {
+			want[i] = int(math.Floor(v))
+		}
+		edge := func(b string) int {
+			switch b {
+			case "left", "top":
+				return 0
+			case "right":
+				return w - 1
+			}
+			return h - 1
+		}
+		orig := append([]float64{}, pts...)
+		data := func() map[string]interface{} {
+			return map[string]interface{}{"image_w": w, "image_h": h, "points_before": orig, "points_after": pts}
+		}
+		switch {
+		case mode <= 6:
+			for j := 0; j < k; j++ {
+				p := idxOf(j)
+				pts[2*p+coord(band)] = bandVal(band)
+				want[2*p+coord(band)] = edge(band)
+				if mode == 6 { // also the perpendicular band: image corner
+					b2 := c19Bands[(rng.Intn(2)+2*(1-coord(band)))%4]
+					if coord(b2) == coord(band) {
+						b2 = c19Bands[(coord(band)*2+2)%4]
+					}
+					pts[2*p+coord(b2)] = bandVal(b2)
+					want[2*p+coord(b2)] = edge(b2)
+				}
+			}
+			orig = append([]float64{}, pts...)
+			err := common.GridSampler_checkAndNudgePoints(bm, pts)
+			r.Evals(1)
+			which := pass
+			if k == n {
+				which = "bothpasses" // every point is in the band: both passes walk the whole list
+			}
+			if err != nil {
+				r.Violation("model-mismatch", "checkAndNudgePoints:error-for-point-within-one-pixel:"+which+"_"+band,
+					fmt.Sprintf("checkAndNudgePoints on %dx%d: %d point(s) at the %s in the %s band -> %v", w, h, k, which, band, err), data())
+				return
+			}
+			for i := range pts {
+				got := math.Floor(pts[i])
+				if got != float64(want[i]) {
+					what := "inside-point-moved"
+					if orig[i] != pts[i] || want[i] != int(math.Floor(orig[i])) {
+						what = "nudged-to-wrong-index"
+					}
+					axis := "x"
+					lim := w
+					if i%2 == 1 {
+						axis, lim = "y", h
+					}
+					r.Violation("model-mismatch", "checkAndNudgePoints:"+what+":"+which+"_"+band,
+						fmt.Sprintf("checkAndNudgePoints on %dx%d (%s, %s band, %d of %d points): point %d %s was %v, now %v; demanded pixel index %d (valid indices 0..%d)", w, h, which, band, k, n, i/2, axis, orig[i], pts[i], want[i], lim-1), data())
+					return
+				}
+			}
+			if mode == 6 {
+				r.Tally("direct_corner_band_" + which)
+			} else {
+				r.Tally("direct_" + which + "_" + band)
+			}
+		case mode == 7:
+			var v float64
+			c := coord(band)
+			hiLim := fw_
+			if c == 1 {
+				hiLim = fh
+			}
+			switch band {
+			case "left", "top":
+				v = []float64{-2, -2.5, -3, -2 - 40*rng.Float(), -1e6}[rng.Intn(5)]
+			default:
+				v = hiLim + []float64{1, 1.5, 2, 1 + 40*rng.Float(), 1e6}[rng.Intn(5)]
+			}
+			p := idxOf(0)
+			pts[2*p+c] = v
+			orig = append([]float64{}, pts...)
+			err := common.GridSampler_checkAndNudgePoints(bm, pts)
+			r.Evals(1)
+			if err == nil {
+				r.Violation("model-mismatch", "checkAndNudgePoints:no-error-beyond-band:"+pass+"_"+band,
+					fmt.Sprintf("checkAndNudgePoints on %dx%d: %s point has %s coordinate %v (more than one pixel outside), no error", w, h, pass, []string{"x", "y"}[c], v), data())
+				return
+			}
+			if !c19NotFound(err) {
+				r.Violation("model-mismatch", "checkAndNudgePoints:error-kind", fmt.Sprintf("error is %T, not NotFoundException", err), data())
+				return
+			}
+			r.Tally("direct_beyond_band_notfound")
+			r.Tally("direct_beyond_band_notfound_" + pass + "_" + band)
+		case mode == 8:
+			c := rng.Intn(2)
+			p := idxOf(0)
+			pts[2*p+c] = -1 - 0.001 - 0.998*rng.Float() // (-2,-1)
+			orig = append([]float64{}, pts...)
+			err := common.GridSampler_checkAndNudgePoints(bm, pts)
+			r.Evals(1)
+			if err != nil {
+				if !c19NotFound(err) {
+					r.Violation("model-mismatch", "checkAndNudgePoints:error-kind", fmt.Sprintf("error is %T, not NotFoundException", err), data())
+					return
+				}
+				r.Tally("direct_dont_care_band_notfound")
+			} else {
+				lim := fw_
+				if c == 1 {
+					lim = fh
+				}
+				if !(pts[2*p+c] >= 0 && pts[2*p+c] < lim) {
+					r.Violation("model-mismatch", "checkAndNudgePoints:accepted-point-left-outside", fmt.Sprintf("coordinate %v in (-2,-1) accepted but left at %v, outside the image", orig[2*p+c], pts[2*p+c]), data())
+					return
+				}
+				r.Tally("direct_dont_care_band_nudged")
+			}
+		default:
+			err := common.GridSampler_checkAndNudgePoints(bm, pts)
+			r.Evals(1)
+			if err != nil {
+				r.Violation("model-mismatch", "checkAndNudgePoints:error-for-inside-points", fmt.Sprintf("all points inside %dx%d, error %v", w, h, err), data())
+				return
+			}
+			for i := range pts {
+				if math.Floor(pts[i]) != math.Floor(orig[i]) {
+					r.Violation("model-mismatch", "checkAndNudgePoints:inside-point-moved:none", fmt.Sprintf("point %d moved from %v to %v", i/2, orig[i], pts[i]), data())
+					return
+				}
+			}
+			r.Tally("direct_all_inside_untouched")
+		}
+		if before := verifhook.OOBReads(); before != c19OOBBase {
+			// checkAndNudgePoints never reads pixels; any change is from sampling in this process
+			c19OOBBase = before
+		}
+	}
+	r.Nontrivial(fmt.Sprintf("direct/%d", idx))
+}
+
+var c19OOBBase int64
